@@ -433,16 +433,15 @@ PROPS = {
         "claim": "PARTIAL proof + full correspondence, all eleven importers. Lean row models (Model/Import/*.lean) from the records as encoding/csv / encoding/json decoded them "
                  "to the directives added to the journal.Builder (explicit error / panic outcomes), printed by the model of journal.Print (C09); a specification-side reader per format "
                  "(Spec/ImportItems.lean: which records are booking rows, their date / currency / signed amount on the import account, carried balances and prices) and the predicate "
-                 "Faithful (Spec/ImportSpec.lean). Proved for ALL record lists and field contents, for ten importers (swisscard2, swisscard, supercard, cumulus, postfinance, revolut2, "
-                 "revolut, wise, viac, swissquote): C13_<importer> - if the importer succeeds its directives are, one for one and in order, the statement's items: one transaction per "
+                 "Faithful (Spec/ImportSpec.lean). Proved for ALL record lists and field contents, for all eleven importers (swisscard2, swisscard, supercard, cumulus, postfinance, revolut2, "
+                 "revolut, wise, viac, swissquote, interactivebrokers): C13_<importer> - if the importer succeeds its directives are, one for one and in order, the statement's items: one transaction per "
                  "booking row, on the row's date, whose net effect on the import account equals the row's signed amount in every commodity, with at least one booking; the carried "
                  "balances / prices verbatim; nothing else (C13_count, C13_booking_row, C13_nothing_else, C13_no_open_close, C13_swisscard2_one_tx_per_row); the monitor's executable "
                  "predicate is complete and sound for Faithful (C13_monitor_complete, C13_monitor_sound, C13_matchesB_iff). Kernel-checked witnesses of the deviations: "
                  "wise_conversion_two_transactions, swissquote_forex_pair_one_transaction, swissquote_sale_without_proceeds_is_booked_as_purchase, postfinance_echo_nonempty. "
-                 "NOT mechanised: (1) the text-level clause (output parses, is accepted and re-printed unchanged once the accounts are opened; stays valid for arbitrary free text) - it "
+                 "NOT mechanised: the text-level clause (output parses, is accepted and re-printed unchanged once the accounts are opened; stays valid for arbitrary free text) - it "
                  "needs print-then-parse lemmas of the parser model; decided on every run on the REAL output by knut's own parser, the Lean parser model, `knut print` on opens + output "
-                 "(accepted, byte-identical), over free text with quotes, separators, newlines, control characters and Unicode; (2) the Faithful theorem for us.interactivebrokers (row "
-                 "model and reader exist and are compared / monitored, a test not a proof). Tie: `knut import <x>` as a subprocess on generated statements of every format (and the "
+                 "(accepted, byte-identical), over free text with quotes, separators, newlines, control characters and Unicode. Tie: `knut import <x>` as a subprocess on generated statements of every format (and the "
                  "repository's eleven example inputs), stdout compared byte for byte with the Lean row model + printer for all eleven importers, also on a malformed stream (mutated "
                  "fields, structure, bytes, flags: same ok / error / panic outcome); the library functions the models rely on (decimal.NewFromString, time.Parse x 5 layouts, "
                  "strings.TrimSpace/Fields/Trim/Replacer, the importers' regular expressions, registry name checks) are compared with Go on structured and mutated strings.",
